@@ -75,9 +75,7 @@ def handle (args : List String) : Option String :=
       let a ← (match ax with | "obs" => some CondAxis.obs | "fcst" => some CondAxis.fcst | "no" => some CondAxis.none | _ => none)
       let (obs, fcst) := (← parseVec? obs, ← parseVec? fcst)
       if name == "obs" || name == "fcst" then
-        some (match fromFieldSingle aggf (agg == "min" || agg == "max") (name == "obs") a I obs fcst with
-              | none => "EMPTY"
-              | some v => toString v)
+        some (toString (fromFieldSingle aggf (agg == "min" || agg == "max") (name == "obs") a I obs fcst))
       else if name == "within" then some (toString (withinSingle I obs fcst))
       else if name == "corr" then some (toString (obsFcstSingle (corr floatTr) a I obs fcst))
       else match Gen.Det.eval floatTr name aggf [] [] with
